@@ -307,13 +307,13 @@ From Coq Require Import List String.
 Import ListNotations.
 Theorem C09_leaf_reads_imports :
   Leaf.L_image_IMAGE_IMPORT_DESCRIPTOR_is_null_args = ["self.FirstThunk : u32"%string] /\
-  Leaf.L_pe32_imports_import_from_va__by_name_args = ["va : u32"%string] /\
-  Leaf.L_pe32_imports_import_from_va__rva_args = ["va : u32"%string] /\
-  Leaf.L_pe32_imports_import_from_va__name_rva_args = ["va : u32"%string] /\
-  Leaf.L_pe32_imports_import_from_va__ordinal_args = ["va : u32"%string] /\
-  Leaf.L_pe64_imports_import_from_va__by_name_args = ["va : u64"%string] /\
-  Leaf.L_pe64_imports_import_from_va__rva_args = ["va : u64"%string] /\
-  Leaf.L_pe64_imports_import_from_va__name_rva_args = ["va : u64"%string] /\
-  Leaf.L_pe64_imports_import_from_va__ordinal_args = ["va : u64"%string].
+  Leaf.L_pe32_imports_import_from_va__by_name_args = ["arg2 : u32"%string] /\
+  Leaf.L_pe32_imports_import_from_va__rva_args = ["arg2 : u32"%string] /\
+  Leaf.L_pe32_imports_import_from_va__name_rva_args = ["arg2 : u32"%string] /\
+  Leaf.L_pe32_imports_import_from_va__ordinal_args = ["arg2 : u32"%string] /\
+  Leaf.L_pe64_imports_import_from_va__by_name_args = ["arg2 : u64"%string] /\
+  Leaf.L_pe64_imports_import_from_va__rva_args = ["arg2 : u64"%string] /\
+  Leaf.L_pe64_imports_import_from_va__name_rva_args = ["arg2 : u64"%string] /\
+  Leaf.L_pe64_imports_import_from_va__ordinal_args = ["arg2 : u64"%string].
 Proof. exact LeafImports.leaf_reads_imports. Qed.
 Print Assumptions C09_leaf_reads_imports.
